@@ -209,17 +209,20 @@ class QGen:
             opts.append((1, neg))
 
         def ifexp():
+            # a conditional is floating in the generated code (C03/C13), so it is only formed where a float is wanted;
+            # its arms may still be integers
             t = self.boolean(env, d - 1)
-            a, _ = self.num(env, d - 1, want, nonneg)
-            b, _ = self.num(env, d - 1, want, nonneg)
+            ka = R.choice(["float", "float", "int"])
+            a, _ = self.num(env, d - 1, ka, nonneg)
+            b, _ = self.num(env, d - 1, ka if R.random() < 0.7 else R.choice(["float", "int"]), nonneg)
             self.f("ifexp")
-            # a conditional is floating in the generated code (see C13); keep 'want' for Python-side typing only
-            return f"({a} if {t} else {b})", "float" if want == "float" else "intcond"
-        opts.append((2, ifexp))
+            return f"({a} if {t} else {b})", "float"
+        if want == "float":
+            opts.append((2, ifexp))
 
         def agg():
             s = self.seq(env, d - 1, T_num(want), True)
-            which = R.choice(["Sum", "Sum", "Aggregate"] + (["Max", "Min"] if self.o["minmax"] else []))
+            which = R.choice(["Sum", "Sum", "Aggregate"] + (["Max", "Min"] if self.o["minmax"] and want == "float" else []))
             self.f(which)
             if which == "Aggregate":
                 a, x = self.v(), self.v()
@@ -301,7 +304,7 @@ class QGen:
             txt, k = self.ch(opts)()
         except CannotGenerate:
             txt, k = leaf()
-        return txt, ("int" if k == "intcond" else k)
+        return txt, k
 
     def nullable_access(self, env, want) -> Optional[Tuple[str, str]]:
         "guarded access through a nullable link:  x.link().m() if <guard> else c"
